@@ -28,6 +28,9 @@ func init() {
 
 func runC13(w *World, r *Report) {
 	hrEndpointKeyHasMethod(w, r, "R4")
+	hrEarlyResponseMessage(w, r, "R4")
+	hrAnyEnabledDiagnosis(w, r, "R4")
+	hrFreshElementPerIteration(w, r, "R4", pkgRunner, "appendEndpointDiagnoses", "appendGlobalDiagnoses", "appendEndpointRemedies", "appendGlobalRemedies")
 	hrDiagnosesSelectedByRequest(w, r, "R4")
 	hrNormalisedPathSpelling(w, r, "R3")
 	bt := w.Fn(pkgConfig, "BuildEndpointPolicyTree")
